@@ -214,6 +214,7 @@ func TestVerifC14rtRoundTrip(t *testing.T) {
 		"schedule-non-utc-zone", "schedule-none", "auth-bcrypt", "auth-allow", "auth-disabled", "auth-doh-only", "custom-rules",
 		"linked-ip-v6", "dedicated-ips", "human-id", "version-mismatch", "deleted-profile")
 	st.Finish(t)
+	vc14rtNeedZones(t)
 
 	dir := t.TempDir()
 	ctx := context.Background()
